@@ -37,6 +37,22 @@ THEOREMS = [
     'C15.gen_vacancy_site_eq_model', 'C15.gen_substitutional_site_eq_model', 'C15.gen_dumbbell_site_eq_model',
     'C15.gen_vacancy_eq_model', 'C15.gen_interstitial_eq_model', 'C15.gen_substitutional_eq_model',
     'C15.gen_dumbbell_eq_model', 'C15.gen_point_eq_model',
+    # completeness of the refusals (iff), index forms, tolerance test = numpy's isclose formula
+    'C15.resolve_index_iff', 'C15.refuse_index_iff', 'C15.resolve_index_indep', 'C15.vacancy_ok_iff',
+    'C15.substitutional_ok_iff', 'C15.dumbbell_ok_iff', 'C15.guardAtype_ok_iff', 'C15.pointC_dispatch',
+    'C15.within_iff_isclose', 'C15.index_forms_same_result',
+    # keywords: requested values / defaults, unknown keys ignored, order irrelevant
+    'C15.zerosLike_spec', 'C15.unknown_keyword_ignored', 'C15.keyword_order_irrelevant',
+    'C15.interstitial_last', 'C15.substitutional_last', 'C15.dumbbell_last',
+    # histories
+    'C15.count_change', 'C15.run_count', 'C15.run_same_cell', 'C15.interstitial_vacancy_roundtrip',
+    # end to end, about the functions as written in point.py (Generated/PointSource.lean)
+    'C15.source_vacancy_is_op', 'C15.source_interstitial_is_op', 'C15.source_substitutional_is_op',
+    'C15.source_dumbbell_is_op', 'C15.source_point_is_op', 'C15.source_vacancy_ok_iff',
+    'C15.source_interstitial_ok_iff', 'C15.source_substitutional_ok_iff', 'C15.source_dumbbell_ok_iff',
+    'C15.op_clauses', 'C15.source_point_clauses',
+    # the per-property loop does not depend on the order of the properties; index objects that are not integers
+    'C15.loop_branches_commute', 'C15.float_index_class', 'C15.float_index_range_agrees', 'C15.float_index_refused',
 ]
 PARTIAL = {
     'periodic image beyond the adjacent cells': 'pos_eq_index_selection is proved for a position that is the atom '
@@ -2314,6 +2330,49 @@ def _apply_edit(system, e):
         system.box_set(vects=system.box.vects, origin=system.box.origin + np.array(e['d']))
 
 
+def _float_index_corr(ctx, rng):
+    """an index OBJECT that is not of integer type (2.0, 1.5, -0.5, numpy.float64): the class of the refusal, model
+    (`fidx`: ValueError out of range, else TypeError / IndexError at its first use) vs implementation; every value
+    around the range ends, directly and through point(), also together with pos."""
+    for it in range(ctx.n(10, 60)):
+        desc = _gen_system(rng, natoms=rng.choice([1, 2, 3, 4, 6]))
+        system = _mk_system(desc)
+        n = system.natoms
+        sline = 'sys ' + _dump(system)
+        got = ctx.driver.ask(sline)
+        if not got.startswith('ok'):
+            ctx.disagree('sys-roundtrip', f'driver did not read the system back: {got[:120]}',
+                         {'op': 'history', 'system': desc, 'ops': []})
+            continue
+        cands = [float(i) for i in range(-n - 1, n + 2)] + [i + 0.5 for i in range(-n - 2, n + 1)] + \
+                [n - 0.25, -n - 0.25, -0.0]
+        for fn in ('vacancy', 'substitutional', 'dumbbell'):
+            for q in rng.sample(cands, min(len(cands), 4)):
+                via = rng.choice(['direct', 'point'])
+                pos = [float(x) for x in system.atoms.pos[rng.randrange(n)]] if rng.random() < 0.15 else None
+                op = {'fn': fn, 'via': via, 'ptd_type': FN_TYPE[fn], 'pos': pos, 'ptd_id': 0, 'ptd_float': q,
+                      'db_vect': [0.25, 0.0, 0.0] if fn == 'dumbbell' else None, 'scale': False, 'atol': None,
+                      'kw': {'atype': 4} if fn == 'substitutional' else {}, 'note': ['float-index']}
+                if rng.random() < 0.3:
+                    op['ptd_float_np'] = True
+                out = _call(op, system)
+                impl = 'ok' if out[0] == 'ok' else 'err:' + out[1]
+                name = fn if via == 'direct' else 'point:' + FN_TYPE[fn]
+                pp = ('1 ' + ' '.join(cm.fr(x) for x in pos)) if pos is not None else '0 0 0 0'
+                line = f'fidx {name} {pp} {1 if fn == "dumbbell" else 0} {0 if fn == "substitutional" else 1} {cm.fr(q)}'
+                model = ctx.driver.ask(line)
+                ctx.stats.case(f'corr-float-index:{fn}{"/point" if via == "point" else ""}:{impl}', (sline, line),
+                               nontrivial=True, sample={'natoms': n, 'fn': fn, 'via': via, 'index': q,
+                                                        'with_pos': pos is not None, 'outcome': impl})
+                if impl != model:
+                    ctx.disagree(fn + ':float-index',
+                                 f'{fn} ({via}) with the non-integer index object ptd_id={q!r}'
+                                 f'{" (numpy.float64)" if op.get("ptd_float_np") else ""}'
+                                 f'{" and pos" if pos is not None else ""} on {n} atoms: implementation '
+                                 f'{impl if out[0] == "ok" else impl + " [" + str(out[2])[:80] + "]"} != model {model}',
+                                 {'op': 'history', 'system': desc, 'ops': [op]})
+
+
 def correspond(ctx):
     rng = ctx.rng
     nsys = ctx.n(600, 6000)
@@ -2370,6 +2429,7 @@ def correspond(ctx):
             _apply_edit(system, e)
     outs = ctx.driver.ask_many(lines)
     ctx.extra['correspondence_outcomes'] = dist
+    _float_index_corr(ctx, rng)
     dead = set()
     nex = 0
     for (kind, desc, hist, want, aux, it), got in zip(checks, outs):
